@@ -45,6 +45,14 @@ struct Scenario {
     per_shard: bool,
     pool_n: usize,
     prefer_dc: String,
+    /// policy.where == "session": the preference is given to SessionBuilder, not to the DefaultPolicy
+    pref_on_session: bool,
+    /// nat: added to the source port by the mock before deriving the shard (emulated NAT)
+    nat: u16,
+    /// initial_tablets value the mock reports for a tablets keyspace
+    initial_tablets: i32,
+    /// refresh: call session.refresh_metadata() between the rounds
+    refresh: bool,
     prefer_rack: String,
     failover: bool,
     tablets: Option<Vec<Tablet>>,
@@ -144,6 +152,10 @@ fn parse_scenario(v: &Value) -> Result<Scenario, String> {
         },
         pool_n: v["pool"]["n"].as_u64().filter(|n| *n > 0).ok_or("pool n missing or 0")? as usize,
         prefer_dc: s(&v["policy"]["prefer_dc"]),
+        pref_on_session: v["policy"]["where"].as_str() == Some("session"),
+        nat: v["nat"].as_u64().unwrap_or(0) as u16,
+        initial_tablets: v["initial_tablets"].as_i64().unwrap_or(1) as i32,
+        refresh: v["refresh"].as_u64().unwrap_or(0) == 1,
         prefer_rack: s(&v["policy"]["prefer_rack"]),
         failover: v["policy"]["failover"].as_u64().unwrap_or(0) == 1,
         tablets,
@@ -297,6 +309,8 @@ async fn run_scenario(sc: &Scenario) -> Value {
     // Ports are reused from the previous scenario: retry binding for up to 3 s.
     let t0 = Instant::now();
     let mock = loop {
+        crate::mock::SHARD_SKEW.store(sc.nat, std::sync::atomic::Ordering::SeqCst);
+        crate::mock::INITIAL_TABLETS.store(sc.initial_tablets, std::sync::atomic::Ordering::SeqCst);
         match MockCluster::try_start(mock_config(sc), make_handler(sc)).await {
             Ok(m) => break m,
             Err(e) if t0.elapsed() < Duration::from_secs(3) => {
@@ -322,12 +336,17 @@ async fn run_with_mock(sc: &Scenario, mock: &MockCluster) -> Value {
     };
 
     let mut pb = DefaultPolicy::builder().token_aware(true).permit_dc_failover(sc.failover);
-    if !sc.prefer_dc.is_empty() {
+    if !sc.prefer_dc.is_empty() && !sc.pref_on_session {
         pb = if sc.prefer_rack.is_empty() { pb.prefer_datacenter(sc.prefer_dc.clone()) } else { pb.prefer_datacenter_and_rack(sc.prefer_dc.clone(), sc.prefer_rack.clone()) };
     }
     let profile = ExecutionProfile::builder().load_balancing_policy(pb.build()).build();
     let n = NonZeroUsize::new(sc.pool_n).expect("pool n > 0");
-    let session = match SessionBuilder::new()
+    let mut sb = SessionBuilder::new();
+    if !sc.prefer_dc.is_empty() && sc.pref_on_session {
+        // the location preference given to the session, the policy itself holding none
+        sb = if sc.prefer_rack.is_empty() { sb.prefer_datacenter(sc.prefer_dc.clone()) } else { sb.prefer_datacenter_and_rack(sc.prefer_dc.clone(), sc.prefer_rack.clone()) };
+    }
+    let session = match sb
         .known_node(mock.contact_point(first_up))
         .pool_size(if sc.per_shard { PoolSize::PerShard(n) } else { PoolSize::PerHost(n) })
         .default_execution_profile_handle(profile.into_handle())
@@ -415,6 +434,11 @@ async fn run_with_mock(sc: &Scenario, mock: &MockCluster) -> Value {
         if round > 1 && sc.tablets.is_some() {
             // Tablet feedback is applied by the driver's cluster worker asynchronously: let it settle.
             tokio::time::sleep(Duration::from_millis(200)).await;
+        }
+        if round > 1 && sc.refresh {
+            // a metadata refresh between the rounds: what was learned about tablets must survive it
+            let _ = session.refresh_metadata().await;
+            tokio::time::sleep(Duration::from_millis(50)).await;
         }
         for (pk, _) in &sc.keys {
             let l = mock.log().len();
